@@ -85,11 +85,12 @@ func refMapKey(s string) string {
 // command words are in scope only until a command has been chosen.
 
 type refSpec struct {
-	flags   []string // "-x" / "--xx" names of bool flags
-	argopts []string // names of string options
-	npos    int      // number of string positionals
-	rest    bool     // trailing slice positional
-	cmds    []string // command words
+	flags    []string // "-x" / "--xx" names of bool flags
+	argopts  []string // names of string options
+	npos     int      // number of string positionals
+	rest     bool     // trailing slice positional
+	cmds     []string // command words
+	cmdFlags []string // bool flags that come into scope once a command word has been seen
 }
 
 type refResult struct {
@@ -193,7 +194,7 @@ func refParse(sp refSpec, opts Options, argv []string) refResult {
 				name = name[:k]
 			}
 			switch {
-			case refIn(sp.flags, "--"+name):
+			case refIn(sp.flags, "--"+name) || (r.cmd != "" && refIn(sp.cmdFlags, "--"+name)):
 				if arg != nil {
 					return refResult{}
 				}
@@ -243,7 +244,7 @@ func refParse(sp refSpec, opts Options, argv []string) refResult {
 			cnt++
 			nm := "-" + string(c)
 			switch {
-			case refIn(sp.flags, nm):
+			case refIn(sp.flags, nm) || (r.cmd != "" && refIn(sp.cmdFlags, nm)):
 				if arg != nil {
 					return refResult{}
 				}
@@ -671,3 +672,74 @@ func refFloatSyntax(s string) (ok, hexish bool) {
 	}
 	return i == len(s), false
 }
+
+// refDuration: the documented grammar of time.ParseDuration - an optional
+// sign, then either the single digit 0 or a non-empty sequence of
+// <decimal number with optional fraction><unit>, units ns us µs μs ms s m h.
+// Returns nanoseconds. (Overflow is outside the lengths the harness uses.)
+func refDuration(s string) (int64, bool) {
+	neg := false
+	if len(s) > 0 && (s[0] == '-' || s[0] == '+') {
+		neg = s[0] == '-'
+		s = s[1:]
+	}
+	if s == "0" {
+		return 0, true
+	}
+	if s == "" {
+		return 0, false
+	}
+	var total int64
+	for len(s) > 0 {
+		i := 0
+		var ip int64
+		for i < len(s) && refDec(s[i]) {
+			ip = ip*10 + int64(s[i]-'0')
+			i++
+		}
+		nInt := i
+		var fp, scale int64 = 0, 1
+		nFrac := 0
+		if i < len(s) && s[i] == '.' {
+			i++
+			for i < len(s) && refDec(s[i]) {
+				fp = fp*10 + int64(s[i]-'0')
+				scale *= 10
+				i++
+				nFrac++
+			}
+		}
+		if nInt == 0 && nFrac == 0 {
+			return 0, false
+		}
+		j := i
+		for j < len(s) && s[j] != '.' && !refDec(s[j]) {
+			j++
+		}
+		var u int64
+		switch s[i:j] {
+		case "ns":
+			u = 1
+		case "us", "µs", "μs":
+			u = 1000
+		case "ms":
+			u = 1000000
+		case "s":
+			u = 1000000000
+		case "m":
+			u = 60 * 1000000000
+		case "h":
+			u = 3600 * 1000000000
+		default:
+			return 0, false
+		}
+		total += ip*u + fp*u/scale
+		s = s[j:]
+	}
+	if neg {
+		total = -total
+	}
+	return total, true
+}
+
+func refDec(c byte) bool { return c >= '0' && c <= '9' }
